@@ -99,8 +99,12 @@ class ClassTable:
                 return {ANY}
         return out or {ANY}
 
+    TYPE_ID_HINTS: dict = {}
+
     def type_ids(self, name):
         """Set of constant names get_type() of class `name` can return, or None if not a fixed set."""
+        if name in self.TYPE_ID_HINTS:
+            return set(self.TYPE_ID_HINTS[name])
         for c in self.mro(name):
             node = self.classes[c]["node"]
             for item in node.body:
@@ -467,8 +471,7 @@ class Safety:
         k = self.key(test)
         if k is not None:
             cur = self.ev(test, env)
-            if ANY not in cur:
-                te[k] = cur - {NONE} or frozenset({ANY})
+            te[k] = cur - {NONE} or frozenset({ANY})
             return te, fe
         self.ev(test, env)
         return te, fe
